@@ -76,6 +76,9 @@ def field_roles(raw):
                 put(path, mp[0], "0")
             continue
         tables = [f for f in fs if is_table(_tys(raw, f["ty"]))]
+        if not tables and path in iters:
+            # an owning iterator keeps the node vector itself
+            tables = [f for f in fs if re.match(r"(std::vec::|alloc::vec::)?Vec<inner::Node<", _tys(raw, f["ty"]))]
         if not tables and path not in iters:
             continue
         locs = [f for f in fs if _tys(raw, f["ty"]).startswith("trieview::ViewLoc<")]
